@@ -3,6 +3,8 @@ from pyvc.dsl import *
 from pyvc.shapes import Optional
 from contracts.c08 import *
 from contracts.c10 import *
+from contracts.c11 import (segwit_decode_c, bech32_decode_c, bech32_decode_first, convertbits_5to8_stream, polymod_c,
+                           hrp_expand_c, verify_checksum_c)
 from specs.addr import *
 from specs.script import *
 import bitcoin
@@ -31,12 +33,23 @@ def select_params(name: OneOf('mainnet', 'testnet', 'regtest', 'signet', 'bogus'
 
 @contract('bitcoin.segwit_addr:decode', name='segwit_decode_ref', prop=P)
 def segwit_decode_ref(hrp: Str, addr: Str) -> (Optional(Int), Optional(ListOf(Int))):
-    """BOUNDED + ASSUMED at call sites: the segwit decoder accepts exactly the BIP173-valid addresses
-    of the prefix and returns version and program"""
-    option(bounded=400, callable=True, assumed=True)
+    """the segwit decoder accepts exactly the BIP173-valid addresses of the prefix and returns version and program:
+    PROVED here from the C11 contracts (bech32_decode, convertbits 5->8), which are re-verified in this check"""
+    option(callable=True, auto_unfold=False, also=['segwit_decode_c'])
+    hint('post', 'post', unfold(segwit_valid(hrp, addr)))
+    hint('post', 'post', unfold(segwit_ver(hrp, addr)))
+    hint('post', 'post', unfold(segwit_prog(hrp, addr)))
     ensures((result[0] is None) == (not segwit_valid(hrp, addr)) and (result[1] is None) == (result[0] is None))
     ensures(implies(segwit_valid(hrp, addr), result[0] == segwit_ver(hrp, addr)
                     and bytes(result[1]) == segwit_prog(hrp, addr) and 0 <= result[0] and result[0] <= 16))
+
+
+@contract('bitcoin.segwit_addr:decode', name='segwit_decode_ref_bounded', prop=P)
+def segwit_decode_ref_bounded(hrp: Str, addr: Str) -> (Optional(Int), Optional(ListOf(Int))):
+    """BOUNDED: the same statement evaluated on generated strings against the executable reference decoder"""
+    option(bounded=400)
+    ensures((result[0] is None) == (ref_segwit_decode(hrp, addr) is None))
+    ensures(result[0] is None or (result[0], bytes(result[1])) == ref_segwit_decode(hrp, addr))
 
 
 @contract('bitcoin.segwit_addr:encode', name='segwit_encode_ref', prop=P)
@@ -210,7 +223,7 @@ def _gen_segwit_decode(rng):
 
 _replay.GENERATORS.update({
     'address_text_roundtrip': _gen_roundtrip, 'foreign_text_refused': _gen_foreign,
-    'segwit_decode_ref': _gen_segwit_decode,
+    'segwit_decode_ref': _gen_segwit_decode, 'segwit_decode_ref_bounded': _gen_segwit_decode,
     'segwit_encode_ref': lambda rng: {'hrp': rng.choice(['bc', 'tb', 'bcrt']), 'witver': 0,
                                       'witprog': {'__bytes__': list(_rnd(rng, rng.choice([20, 32]))), 'cls': 'builtins:bytes'}},
 })
